@@ -45,11 +45,11 @@ var c14Shapes = []string{
 	"permessage-deflate; client_max_window_bits=15",
 	"permessage-deflate; client_max_window_bits=10",
 	"permessage-deflate; client_max_window_bits=8",
-	"permessage-deflate; client_max_window_bits=7",   // malformed: out of range
-	"permessage-deflate; client_max_window_bits=16",  // malformed: out of range
-	"permessage-deflate; client_max_window_bits=abc", // malformed: not a number
-	"permessage-deflate; client_max_window_bits=010", // malformed: leading zero (numerically in range)
-	"permessage-deflate; client_max_window_bits=+10", // malformed: sign
+	"permessage-deflate; client_max_window_bits=7",                             // malformed: out of range
+	"permessage-deflate; client_max_window_bits=16",                            // malformed: out of range
+	"permessage-deflate; client_max_window_bits=abc",                           // malformed: not a number
+	"permessage-deflate; client_max_window_bits=010",                           // malformed: leading zero (numerically in range)
+	"permessage-deflate; client_max_window_bits=+10",                           // malformed: sign
 	"permessage-deflate; client_max_window_bits=10; client_max_window_bits=12", // malformed: duplicate with values
 	"permessage-deflate; client_max_window_bits=10; client_max_window_bits",    // malformed: duplicate, first with a value
 	"permessage-deflate; server_max_window_bits=15",
